@@ -32,6 +32,8 @@ func execLine(line string) string {
 			return execGen(t[1:])
 		case "build":
 			return execBuild(t[1:])
+		case "server":
+			return execServer(t[1:])
 		case "promise":
 			return execPromise(t[1:])
 		case "cap":
@@ -57,6 +59,7 @@ var generators = map[string]func(rec *lib.Rec, r *lib.Rng, thorough bool){
 	"C13": genC13,
 	"C10": genC10,
 	"C11": genC11,
+	"C12": genC12,
 	"C04": func(rec *lib.Rec, r *lib.Rng, th bool) { genBuild(rec, r, th, "C04") },
 	"C05": func(rec *lib.Rec, r *lib.Rng, th bool) { genBuild(rec, r, th, "C05") },
 	"C16": func(rec *lib.Rec, r *lib.Rng, th bool) { genBuild(rec, r, th, "C16") },
